@@ -174,6 +174,30 @@ func c16Monitor(in c16In, code int, id string, panicked any) (ok bool, msg strin
 		}
 	}
 	sniStage := p != proxy.ProtoHTTPS || pathPlain
+	// The property stated directly for DoH requests that carry a TLS state
+	// (r.TLS != nil): the only name that counts is r.TLS.ServerName, also when
+	// it is empty; the Host header is attacker-chosen and must play no part.
+	if p == proxy.ProtoHTTPS && in.HasReq && in.HasTLS {
+		if code == 0 && id != "" {
+			okPath := hasPathCand && strings.ToLower(pathCand) == id
+			okTLS := false
+			if in.Host != "" && strings.HasSuffix(in.ReqSNI, "."+in.Host) {
+				x := in.ReqSNI[:len(in.ReqSNI)-len(in.Host)-1]
+				okTLS = pathPlain && x != "" && !strings.Contains(x, ".") && strings.ToLower(x) == id
+			}
+			if !okPath && !okTLS {
+				return false, "DoH request with a TLS state got an id that is neither the path id nor the label before the configured name in r.TLS.ServerName"
+			}
+		}
+		if in.ReqSNI == "" && pathPlain && in.Host != "" {
+			if code == 0 && id != "" {
+				return false, "DoH over TLS without SNI got an id from somewhere else than the path"
+			}
+			if in.Strict && code == 0 {
+				return false, "strict check passed on a DoH TLS connection without SNI"
+			}
+		}
+	}
 	if code == 0 && id != "" {
 		if id != strings.ToLower(id) || !c16LabelRe.MatchString(id) {
 			return false, "id is not a lower-case valid label"
@@ -192,6 +216,59 @@ func c16Monitor(in c16In, code int, id string, panicked any) (ok bool, msg strin
 	}
 	if in.Strict && sniStage && in.Host != "" && hasCli && cli != in.Host && !hasSNICand && code == 0 {
 		return false, "strict check accepted a name outside the configured one"
+	}
+	// Attribution: a valid label in the path, or (when the path has none) in
+	// front of the configured name, is the ClientID, lower-cased.
+	if hasPathCand && c16AnyLabelRe.MatchString(pathCand) && (code != 0 || id != strings.ToLower(pathCand)) {
+		return false, "valid label in the path was not attributed"
+	}
+	if sniStage && hasSNICand && c16AnyLabelRe.MatchString(sniCand) && (code != 0 || id != strings.ToLower(sniCand)) {
+		return false, "valid label in front of the configured server name was not attributed"
+	}
+	return true, ""
+}
+
+var (
+	c16HostPortRe    = regexp.MustCompile(`^([^:\[\]]+):([^:\[\]]*)$`)
+	c16BracketPortRe = regexp.MustCompile(`^\[([^\[\]]*)\]:([^:\[\]]*)$`)
+	c16TwoColonsRe   = regexp.MustCompile(`^[^:\[\]]+:[^\[\]]*:[^:\[\]]*$`)
+)
+
+// c16HTTPNameMonitor states what clientServerNameFromHTTP must return.
+func c16HTTPNameMonitor(hasTLS bool, sni, hostHdr, name string, fromHost bool, err error) (ok bool, msg string) {
+	switch {
+	case hasTLS:
+		if err != nil || name != sni || fromHost {
+			return false, "request with a TLS state: the name is not r.TLS.ServerName (or is flagged as coming from the Host header)"
+		}
+	case err != nil:
+		if name != "" || fromHost {
+			return false, "Host parse error together with a name"
+		}
+		if !strings.ContainsAny(hostHdr, ":[]") {
+			return false, "Host header without port or brackets was rejected"
+		}
+	case hostHdr == "":
+		if name != "" || fromHost {
+			return false, "empty Host header gave a name"
+		}
+	default:
+		want, known := "", false
+		if !strings.ContainsAny(hostHdr, ":[]") {
+			want, known = hostHdr, true
+		} else if m := c16HostPortRe.FindStringSubmatch(hostHdr); m != nil {
+			want, known = m[1], true
+		} else if m = c16BracketPortRe.FindStringSubmatch(hostHdr); m != nil {
+			want, known = m[1], true
+		} else if c16TwoColonsRe.MatchString(hostHdr) {
+			return false, "host:port:port was accepted"
+		}
+		if !fromHost {
+			return false, "plain-HTTP name not flagged as coming from the Host header"
+		}
+		if known && name != want {
+			return false, "plain-HTTP name is not the Host header without its port"
+		}
 	}
 	return true, ""
 }
@@ -446,9 +523,166 @@ func c16GenCtx(r *vfRand) (in c16In, classes []string) {
 	return in, classes
 }
 
+var c16GoodLabels = []string{"victimid", "cli", "MyPhone", "a-b", "x1", "0"}
+
+var c16PlainPaths = []string{"/dns-query", "/dns-query/", "//dns-query/.", "/dns-query/x/..", "dns-query"}
+
+func c16WithPort(r *vfRand, name string) string {
+	switch r.Intn(4) {
+	case 0:
+		return name
+	case 1:
+		return name + ":443"
+	case 2:
+		return name + ":8443"
+	default:
+		return name + ":"
+	}
+}
+
+// c16GenDoHName generates DoH requests whose outcome depends on where the
+// client's server name is read from: the TLS state (also one without SNI) or,
+// only for plain HTTP, the Host header.
+func c16GenDoHName(r *vfRand) (in c16In, classes []string) {
+	in.Proto, in.HasReq = 5, true
+	in.Host = c16Hosts[r.Intn(2)]
+	if r.Chance(1, 8) {
+		in.Host = vfPick(r, c16Hosts)
+	}
+	in.Strict = r.Bool()
+	lab := vfPick(r, c16GoodLabels)
+	if r.Chance(1, 6) {
+		lab = c16Label(r)
+	}
+	withID := r.Chance(1, 4)
+	if withID {
+		in.Path = "/dns-query/" + vfPick(r, []string{"pathid", "PathID", "-bad", "p/extra", lab})
+	} else {
+		in.Path = vfPick(r, c16PlainPaths)
+	}
+	// the name an attacker would put into the Host header
+	hostName, rel := "", ""
+	switch r.Intn(8) {
+	case 0, 1, 2, 3:
+		hostName, rel = lab+"."+in.Host, "sub"
+	case 4:
+		hostName, rel = in.Host, "equal"
+	case 5:
+		hostName, rel = lab+"."+c16Label(r)+"."+in.Host, "other"
+	case 6:
+		hostName, rel = c16FlipCase(r, lab+"."+in.Host), "sub"
+	default:
+		hostName, _ = c16CliName(r, in.Host)
+		rel = "other"
+		if hostName == in.Host {
+			rel = "equal"
+		}
+	}
+	switch r.Intn(3) {
+	case 0:
+		// TLS without SNI
+		in.HasTLS, in.ReqSNI = true, ""
+		in.HostHdr = c16WithPort(r, hostName)
+		classes = append(classes, "doh-tls-empty-sni", "doh-tls-empty-sni-host-"+rel)
+		if withID {
+			classes = append(classes, "doh-tls-empty-sni-path-id")
+		} else if in.Host == "" {
+			classes = append(classes, "doh-tls-empty-sni-no-conf-name")
+		} else if in.Strict {
+			classes = append(classes, "doh-tls-empty-sni-strict")
+		} else {
+			classes = append(classes, "doh-tls-empty-sni-lenient")
+		}
+	case 1:
+		// TLS with SNI; the Host header names somebody else
+		in.HasTLS = true
+		switch r.Intn(4) {
+		case 0:
+			in.ReqSNI = in.Host
+		case 1:
+			in.ReqSNI, _ = c16CliName(r, in.Host)
+		default:
+			in.ReqSNI = vfPick(r, []string{"tlsid", "TlsID", "own"}) + "." + in.Host
+		}
+		if hostName == in.ReqSNI {
+			hostName = "x" + hostName
+		}
+		in.HostHdr = c16WithPort(r, hostName)
+		classes = append(classes, "doh-tls-sni-vs-host")
+	default:
+		// plain HTTP behind a proxy: the Host header is all there is
+		switch r.Intn(8) {
+		case 0, 1:
+			in.HostHdr = hostName
+			classes = append(classes, "doh-plain-host")
+		case 2, 3:
+			in.HostHdr = hostName + vfPick(r, []string{":80", ":8080", ":443", ":"})
+			classes = append(classes, "doh-plain-host-port")
+		case 4:
+			in.HostHdr = vfPick(r, []string{"[::1]:80", "[2001:db8::1]:8080", "[" + hostName + "]:80", "[::1]", "[" + hostName + "]"})
+			classes = append(classes, "doh-plain-host-bracket")
+		case 5, 6:
+			in.HostHdr = vfPick(r, []string{hostName + ":1:2", hostName + "]:80", "[" + hostName + ":80", "[" + hostName + "]x:80", "::1", "[::1]:80:90", "[[::1]]:80", hostName + ":80]"})
+			classes = append(classes, "doh-plain-host-bad")
+		default:
+			in.HostHdr = ""
+			classes = append(classes, "doh-plain-host-empty")
+		}
+	}
+	return in, classes
+}
+
+// c16EmitHTTPName runs clientServerNameFromHTTP itself.
+func c16EmitHTTPName(out *vfOut, hasTLS bool, sni, hostHdr string, classes []string) {
+	r := &http.Request{ProtoMajor: 1, ProtoMinor: 1, URL: &url.URL{Path: "/dns-query"}, Host: hostHdr}
+	if hasTLS {
+		r.TLS = &tls.ConnectionState{ServerName: sni}
+	}
+	name, fromHost, err := clientServerNameFromHTTP(r)
+	ok, msg := c16HTTPNameMonitor(hasTLS, sni, hostHdr, name, fromHost, err)
+	if hasTLS {
+		classes = append(classes, "http-name-tls")
+		if sni == "" {
+			classes = append(classes, "http-name-tls-empty-sni")
+		}
+	} else if err != nil {
+		classes = append(classes, "http-name-plain-err")
+	} else {
+		classes = append(classes, "http-name-plain")
+	}
+	c := vfCase{
+		Coq: vfApp("CHttpName", vfOpt("bytes", hasTLS, vfBytes(sni)), vfBytes(hostHdr),
+			vfOpt("bytes", err == nil, vfBytes(name)), vfBool(fromHost)),
+		Nontrivial: err != nil || name != "",
+		Classes:    classes,
+		MonitorOK:  ok, MonitorMsg: msg,
+		Desc: map[string]any{"op": "clientServerNameFromHTTP", "req_has_tls": hasTLS, "req_tls_name": sni,
+			"req_host": hostHdr, "name": name, "from_host": fromHost, "err": err != nil},
+	}
+	if !ok {
+		c.FindingKey = "C16-" + vfHash(msg, "httpname", hasTLS, sni, hostHdr)
+	}
+	out.Emit(c)
+}
+
 func c16Emit(out *vfOut, in c16In, classes []string) {
 	code, id, pan := c16Run(in)
 	ok, msg := c16Monitor(in, code, id, pan)
+	if ok && c16Protos[in.Proto] == proxy.ProtoHTTPS && in.HasReq && in.HasTLS {
+		// The same request with another Host header: with a TLS state the
+		// outcome must not change (the header is not read at all).
+		for _, hh := range []string{"", "victimid." + in.Host, in.Host, in.ReqSNI} {
+			if hh == in.HostHdr {
+				continue
+			}
+			in2 := in
+			in2.HostHdr = hh
+			if code2, id2, _ := c16Run(in2); code2 != code || id2 != id {
+				ok, msg = false, fmt.Sprintf("request with a TLS state: the outcome changes with the Host header (%q gives code %d id %q)", hh, code2, id2)
+				break
+			}
+		}
+	}
 	p := c16Protos[in.Proto]
 	switch {
 	case p != proxy.ProtoHTTPS && p != proxy.ProtoTLS && p != proxy.ProtoQUIC:
@@ -621,9 +855,54 @@ func TestVerifC16(t *testing.T) {
 		{c16In{Proto: 5, Host: H, HasReq: true, Path: "dns-query/cli", HasTLS: true, ReqSNI: H}, "pre-path-relative"},
 		{c16In{Proto: 5, Host: H, HasReq: true, Path: "", HasTLS: true, ReqSNI: H}, "pre-path-empty"},
 		{c16In{Proto: 5, Host: H, HasReq: true, Path: "/dns-query/" + strings.Repeat("y", 64), HasTLS: true, ReqSNI: H}, "pre-path-long"},
+		// DoH over TLS without SNI: the Host header must not stand in for the name
+		{c16In{Proto: 5, Host: H, HasReq: true, Path: "/dns-query", HasTLS: true, ReqSNI: "", HostHdr: "victimid." + H}, "doh-tls-empty-sni-host-sub"},
+		{c16In{Proto: 5, Host: H, Strict: true, HasReq: true, Path: "/dns-query", HasTLS: true, ReqSNI: "", HostHdr: "victimid." + H}, "doh-tls-empty-sni-host-sub"},
+		{c16In{Proto: 5, Host: H, HasReq: true, Path: "/dns-query/", HasTLS: true, ReqSNI: "", HostHdr: "victimid." + H + ":443"}, "doh-tls-empty-sni-host-sub"},
+		{c16In{Proto: 5, Host: H, Strict: true, HasReq: true, Path: "/dns-query", HasTLS: true, ReqSNI: "", HostHdr: "victimid." + H + ":443"}, "doh-tls-empty-sni-host-sub"},
+		{c16In{Proto: 5, Host: H, Strict: true, HasReq: true, Path: "/dns-query", HasTLS: true, ReqSNI: "", HostHdr: H}, "doh-tls-empty-sni-host-equal"},
+		{c16In{Proto: 5, Host: H, HasReq: true, Path: "/dns-query", HasTLS: true, ReqSNI: "", HostHdr: H + ":443"}, "doh-tls-empty-sni-host-equal"},
+		{c16In{Proto: 5, Host: H, Strict: true, HasReq: true, Path: "/dns-query", HasTLS: true, ReqSNI: "", HostHdr: "evil.org"}, "doh-tls-empty-sni-host-other"},
+		{c16In{Proto: 5, Host: H, Strict: true, HasReq: true, Path: "/dns-query", HasTLS: true, ReqSNI: "", HostHdr: ""}, "doh-tls-empty-sni-host-other"},
+		{c16In{Proto: 5, Host: H, Strict: true, HasReq: true, Path: "/dns-query", HasTLS: true, ReqSNI: "", HostHdr: "victimid." + H + ":1:2"}, "doh-tls-empty-sni-host-other"},
+		{c16In{Proto: 5, Host: H, Strict: true, HasReq: true, Path: "/dns-query/PathID", HasTLS: true, ReqSNI: "", HostHdr: "victimid." + H}, "doh-tls-empty-sni-path-id"},
+		{c16In{Proto: 5, Host: H, HasReq: true, Path: "/dns-query/pathid", HasTLS: true, ReqSNI: "", HostHdr: "victimid." + H}, "doh-tls-empty-sni-path-id"},
+		{c16In{Proto: 5, Host: "", Strict: true, HasReq: true, Path: "/dns-query", HasTLS: true, ReqSNI: "", HostHdr: "victimid." + H}, "doh-tls-empty-sni-no-conf-name"},
+		// TLS with SNI: the SNI wins over a different Host header
+		{c16In{Proto: 5, Host: H, Strict: true, HasReq: true, Path: "/dns-query", HasTLS: true, ReqSNI: "tlsid." + H, HostHdr: "victimid." + H}, "doh-tls-sni-vs-host"},
+		{c16In{Proto: 5, Host: H, Strict: true, HasReq: true, Path: "/dns-query", HasTLS: true, ReqSNI: H, HostHdr: "victimid." + H + ":443"}, "doh-tls-sni-vs-host"},
+		{c16In{Proto: 5, Host: H, Strict: true, HasReq: true, Path: "/dns-query", HasTLS: true, ReqSNI: "evil.org", HostHdr: "victimid." + H}, "doh-tls-sni-vs-host"},
+		{c16In{Proto: 5, Host: H, HasReq: true, Path: "/dns-query", HasTLS: true, ReqSNI: "evil.org", HostHdr: "victimid." + H}, "doh-tls-sni-vs-host"},
+		{c16In{Proto: 5, Host: H, HasReq: true, Path: "/dns-query", HasTLS: true, ReqSNI: "tlsid." + H, HostHdr: "bad host:1:2"}, "doh-tls-sni-vs-host"},
+		// plain HTTP behind a proxy: the Host header without its port
+		{c16In{Proto: 5, Host: H, Strict: true, HasReq: true, Path: "/dns-query", HostHdr: "MyPhone." + H}, "doh-plain-host"},
+		{c16In{Proto: 5, Host: H, Strict: true, HasReq: true, Path: "/dns-query", HostHdr: H}, "doh-plain-host"},
+		{c16In{Proto: 5, Host: H, Strict: true, HasReq: true, Path: "/dns-query", HostHdr: "evil.org"}, "doh-plain-host"},
+		{c16In{Proto: 5, Host: H, Strict: true, HasReq: true, Path: "/dns-query", HostHdr: "cli." + H + ":8080"}, "doh-plain-host-port"},
+		{c16In{Proto: 5, Host: H, Strict: true, HasReq: true, Path: "/dns-query", HostHdr: H + ":80"}, "doh-plain-host-port"},
+		{c16In{Proto: 5, Host: H, Strict: true, HasReq: true, Path: "/dns-query", HostHdr: "cli." + H + ":"}, "doh-plain-host-port"},
+		{c16In{Proto: 5, Host: H, Strict: true, HasReq: true, Path: "/dns-query", HostHdr: "[::1]:80"}, "doh-plain-host-bracket"},
+		{c16In{Proto: 5, Host: H, HasReq: true, Path: "/dns-query", HostHdr: "[::1]"}, "doh-plain-host-bracket"},
+		{c16In{Proto: 5, Host: H, HasReq: true, Path: "/dns-query", HostHdr: "[cli." + H + "]:80"}, "doh-plain-host-bracket"},
+		{c16In{Proto: 5, Host: H, HasReq: true, Path: "/dns-query", HostHdr: "cli." + H + ":80:90"}, "doh-plain-host-bad"},
+		{c16In{Proto: 5, Host: H, Strict: true, HasReq: true, Path: "/dns-query", HostHdr: "::1"}, "doh-plain-host-bad"},
+		{c16In{Proto: 5, Host: H, HasReq: true, Path: "/dns-query", HostHdr: "[cli." + H + "]x:80"}, "doh-plain-host-bad"},
+		{c16In{Proto: 5, Host: H, HasReq: true, Path: "/dns-query/pathid", HostHdr: "cli." + H + ":80:90"}, "doh-plain-host-bad"},
+		{c16In{Proto: 5, Host: H, HasReq: true, Path: "/dns-query", HostHdr: ""}, "doh-plain-host-empty"},
 	}
 	for _, p := range pre {
 		c16Emit(out, p.in, []string{p.cl})
+	}
+	for _, p := range []struct {
+		tls      bool
+		sni, hdr string
+	}{
+		{true, "", "victimid." + H}, {true, "", "victimid." + H + ":443"}, {true, "", ""}, {true, "", "a:1:2"},
+		{true, "tlsid." + H, "victimid." + H}, {true, H, ""},
+		{false, "", "cli." + H}, {false, "", "cli." + H + ":80"}, {false, "", "cli." + H + ":"}, {false, "", "[::1]:80"},
+		{false, "", "[::1]"}, {false, "", "::1"}, {false, "", "a:1:2"}, {false, "", "[a]x:1"}, {false, "", ""},
+	} {
+		c16EmitHTTPName(out, p.tls, p.sni, p.hdr, []string{"pre-http-name"})
 	}
 
 	rnd := vfNewRand(out.Seed)
@@ -632,6 +911,15 @@ func TestVerifC16(t *testing.T) {
 	for i := 0; i < n; i++ {
 		in, cls := c16GenCtx(rc)
 		c16Emit(out, in, cls)
+	}
+	rd := rnd.Fork(4)
+	n = out.Scale(2500, 12000)
+	for i := 0; i < n; i++ {
+		in, cls := c16GenDoHName(rd)
+		c16Emit(out, in, cls)
+		if i%3 == 0 {
+			c16EmitHTTPName(out, in.HasTLS, in.ReqSNI, in.HostHdr, nil)
+		}
 	}
 	rs := rnd.Fork(2)
 	n = out.Scale(1500, 8000)
